@@ -719,3 +719,20 @@ TARGETS.update({'DFA.copy': (_PD, 'DeterministicFiniteAutomaton.copy'), 'DFA.to_
 
 # contracts of this world that are verified from their own source in another module
 VERIFIED_ELSEWHERE = {'Namer.get_merged': 'contracts.fa_namer (StateNamer._get)', 'Namer.get_pair': 'contracts.fa_namer (StateNamer._get)'}
+
+# ------------------------------------------------------------------ engine self-test (thorough tier): edits that must / must not break a proof
+_E = 'pyformlang/finite_automaton/epsilon_nfa.py'; _FA = 'pyformlang/finite_automaton/finite_automaton.py'
+SMOKE = [
+    ('ENFA.eclose', _E, "                    to_process.append(conn_state)", "                    pass", 'break'),
+    ('ENFA.is_empty', _E, "            for state in self._transition_function(current, Epsilon()):\n                if state not in processed:\n                    to_process.append(state)\n                    processed.add(state)\n        return True", "        return True", 'break'),
+    ('ENFA.get_complement', _E, "            if state in finals:\n                enfa.remove_final_state(state)", "            if state not in finals:\n                enfa.remove_final_state(state)", 'break'),
+    ('ENFA.get_complement', _E, "        enfa.add_final_state(trash)\n        for state in states:", "        for state in states:", 'break'),
+    ('ENFA.reverse', _E, "            enfa.add_final_state(start)", "            enfa.add_start_state(start)", 'break'),
+    ('ENFA.remove_epsilon_transitions', _E, "                for symb in self._input_symbols:\n                    for next_state in self._transition_function(e_state, symb):", "                for symb in self._input_symbols:\n                    for next_state in self._transition_function(state, symb):", 'break'),
+    ('ENFA._to_deterministic_internal', _E, "                if state in self._final_states:\n                    dfa.add_final_state(s_from)", "                if state not in self._final_states:\n                    dfa.add_final_state(s_from)", 'break'),
+    ('ENFA.get_intersection', _E, "        for st0 in self.final_states:\n            for st1 in other.final_states:", "        for st0 in self.final_states:\n            for st1 in other.states:", 'break'),
+    ('ENFA.add_transition', _FA, "        self._states.add(s_to)\n", "", 'break'),
+    ('ENFA._get_states_leading_to_final', _FA, "                    states_to_process.append(previous_state)", "                    pass", 'break'),
+    ('ENFA.eclose', _E, "                    processed.add(conn_state)\n                    to_process.append(conn_state)", "                    to_process.append(conn_state)\n                    processed.add(conn_state)", 'benign'),
+    ('ENFA.eclose', _E, "            connected = self._transition_function(current, Epsilon())\n            for conn_state in connected:", "            neighbours = self._transition_function(current, Epsilon())\n            for conn_state in neighbours:", 'benign'),
+]
